@@ -72,12 +72,27 @@ impl Side for FullArrangement<'_> {
 
 type Rows = Vec<(Vec<Q>, Q)>;
 
+/// plan entry standing for "skip_subtree before the first next()"
+const BEFORE_FIRST: usize = usize::MAX;
+
+fn fmt_plan(plan: &BTreeSet<usize>) -> String {
+    let v: Vec<String> = plan.iter().map(|x| if *x == BEFORE_FIRST { "before the first next()".to_string() } else { x.to_string() }).collect();
+    format!("{{{}}}", v.join(", "))
+}
+
 /// stream the real iterator; skip after the listed node indices (twice if `double`)
 fn real_stream(t: &AffTree<2>, plan: &BTreeSet<usize>, double: bool) -> Result<Vec<(usize, usize, usize, Rows)>, String> {
     catch(|| {
         let mut it = t.polyhedra_iter();
         let mut out = vec![];
         let mut guard = 0;
+        if plan.contains(&BEFORE_FIRST) {
+            // no node has been reported yet: nothing may be omitted
+            it.skip_subtree();
+            if double {
+                it.skip_subtree();
+            }
+        }
         while let Some((d, idx, rem, polys)) = it.next() {
             guard += 1;
             if guard > 1000 {
@@ -144,9 +159,10 @@ pub fn run_case(c: &Case) -> CaseOut {
     let total = c.t.is_total();
     // ---- (a) iterator stream and reported polytopes, with skips
     let order: Vec<usize> = reference_stream(&s, &BTreeSet::new()).iter().map(|x| x.0).collect();
-    let mut plans: Vec<(BTreeSet<usize>, bool)> = vec![(BTreeSet::new(), false)];
+    let mut plans: Vec<(BTreeSet<usize>, bool)> = vec![(BTreeSet::new(), false), ([BEFORE_FIRST].into_iter().collect(), false), ([BEFORE_FIRST].into_iter().collect(), true)];
     for (i, &x) in order.iter().enumerate() {
         plans.push(([x].into_iter().collect(), false));
+        plans.push(([BEFORE_FIRST, x].into_iter().collect(), false));
         plans.push(([x].into_iter().collect(), true));
         for &y in order.iter().skip(i + 1) {
             plans.push(([x, y].into_iter().collect(), false));
@@ -165,10 +181,10 @@ pub fn run_case(c: &Case) -> CaseOut {
                 let got_hdr: Vec<(usize, usize, usize)> = got.iter().map(|x| (x.0, x.1, x.2)).collect();
                 if got_hdr != exp {
                     let mut r = rec();
-                    r["skip_after"] = json!(plan);
+                    r["skip_after"] = json!(fmt_plan(plan));
                     r["double"] = json!(double);
                     out.violate(
-                        Violation::new(format!("polyhedra_iter stream (idx,depth,remaining) {:?}, expected {:?} (skip after {:?}{})", got_hdr, exp, plan, if *double { " twice" } else { "" }), r)
+                        Violation::new(format!("polyhedra_iter stream (idx,depth,remaining) {:?}, expected {:?} (skip after {}{})", got_hdr, exp, fmt_plan(plan), if *double { " twice" } else { "" }), r)
                             .tag("kind", "stream").tag("skip", if plan.is_empty() { "none" } else if *double { "double" } else { "single" }),
                     );
                     return out;
@@ -178,9 +194,9 @@ pub fn run_case(c: &Case) -> CaseOut {
                     if *rows != exp_rows {
                         let mut r = rec();
                         r["node"] = json!(idx);
-                        r["skip_after"] = json!(plan);
+                        r["skip_after"] = json!(fmt_plan(plan));
                         out.violate(
-                            Violation::new(format!("node {idx}: reported path conditions differ from +-(A,b) along path_to_node (skip after {:?})", plan), r)
+                            Violation::new(format!("node {idx}: reported path conditions differ from +-(A,b) along path_to_node (skip after {})", fmt_plan(plan)), r)
                                 .tag("kind", "polytope").tag("skip", if plan.is_empty() { "none" } else { "some" }),
                         );
                         return out;
@@ -304,7 +320,7 @@ pub fn run(tier: Tier) -> Report {
     let total = par_cases(&cs, |_, c| run_case(c));
     rep.absorb(total);
     rep.set("bound", match tier {
-        Tier::Quick => "binary trees with <= 7 nodes, depth <= 3, total and partial, predicates in special position (dim 1: coincident/parallel/opposite; dim 2: concurrent, parallel, negatively scaled), three arena layouts; skip plans: none, every single position once and twice, every pair",
+        Tier::Quick => "binary trees with <= 7 nodes, depth <= 3, total and partial, predicates in special position (dim 1: coincident/parallel/opposite; dim 2: concurrent, parallel, negatively scaled), three arena layouts; skip plans: none, before the first next() (once, twice, and combined with every single position), every single position once and twice, every pair",
         Tier::Thorough => "same with <= 9 nodes",
     });
     rep.assume("faces of the full arrangement of the tree's predicates are enumerated; real find_terminal is called at every face whose witness is exactly representable");
